@@ -363,6 +363,12 @@ def writeSuppr (l : List Suppr) : List (Bool × Suppr) :=
     if s.hash > 0 then none
     else if s.isInline then some (true, s) else if s.checked then some (false, s) else none)
 
+/-- what the parent makes of the suppression lines of one worker (`handleRead` on each line, in order) -/
+def decodedSups (cfg : Cfg) (l : List (Bool × Suppr)) : List Suppr :=
+  l.filterMap fun p => match supprDecode cfg.simp p.1 (supprEncode p.2) with
+    | .ok s => some s
+    | .error _ => none
+
 /-- `std::stoi`: `none` = invalid_argument / out_of_range (not caught by handleRead) -/
 def stoi (s : Str) : Option Int :=
   let (neg, s) := splitSign (dropSpaces s)
